@@ -15,7 +15,7 @@ import (
 )
 
 func init() {
-	Registry["C11"] = Check{Level: "exploration", Run: runC11, Replay: replayC11}
+	Registry["C11"] = Check{GC: 25, Level: "exploration", Run: runC11, Replay: replayC11}
 }
 
 type c11Case struct {
